@@ -5,7 +5,7 @@ CONSTANTS
   Kind = "nameaddr"
   Atoms <- AtomsParams2
   Prefix <- PfxAS
-  MaxLen = 7
+  MaxLen = 8
   Cfgs <- CfgsNA8
   Junk = 34
   EmitOn = TRUE
